@@ -6,6 +6,7 @@ import (
 	"os"
 	"path/filepath"
 	"strings"
+	"syscall"
 
 	"verifharness/ref"
 )
@@ -37,8 +38,24 @@ func (c *c19ctx) flagInPlace() {
 		flags = []string{"--front-matter=" + []string{"process", "process", "extract"}[c.r.IntN(3)]}
 	}
 	mode := []string{"eval", "ea"}[c.r.IntN(2)]
-	expr := []string{".a = " + v, ".added = " + v, "del(.a)", ".a |= . + " + v}[c.r.IntN(4)]
+	expr := []string{".a = " + v, ".added = " + v, "del(.a)", ".a |= . + " + v, "del(.b)", "{\"z\": 1}"}[c.r.IntN(6)]
 	c.tag("flag:-i", "mode:"+mode)
+	if c.r.IntN(2) == 0 {
+		// the temporary file on another file system than the target (the rename cannot work, the result is copied over)
+		for _, base := range []string{"/dev/shm", "/tmp", "/var/tmp"} {
+			var st1, st2 syscall.Stat_t
+			if syscall.Stat(base, &st1) == nil && syscall.Stat(c.dir, &st2) == nil && st1.Dev != st2.Dev {
+				td := filepath.Join(base, fmt.Sprintf("verif-c19-%d-%d", os.Getpid(), c.idx))
+				if os.MkdirAll(td, 0o755) == nil {
+					defer os.RemoveAll(td)
+					c.envExtra = []string{"TMPDIR=" + td}
+					defer func() { c.envExtra = nil }()
+					c.tag("tmpdir:other-filesystem")
+				}
+				break
+			}
+		}
+	}
 	if fm {
 		c.tag(flags[0])
 	}
